@@ -5,6 +5,7 @@ package zzverif
 import (
 	"encoding/json"
 	"os"
+	"runtime"
 )
 
 var (
@@ -27,10 +28,63 @@ func Load(path string) (*Replay, error) {
 }
 
 func next() uint64 {
-	if pos >= len(vals) {
+	p := &pos
+	if conc != nil {
+		p = conc[goid()]
+	}
+	if *p >= len(vals) {
 		panic(InputsExhausted{})
 	}
-	v := vals[pos].Val
-	pos++
+	v := vals[*p].Val
+	*p++
 	return v
+}
+
+// ---- concurrent replay (C18): every goroutine reads the loaded inputs through its own cursor ----
+
+var conc map[uint64]*int
+
+func goid() uint64 {
+	var buf [64]byte
+	n := runtime.Stack(buf[:], false)
+	// "goroutine 123 [running]:"
+	var id uint64
+	for _, c := range buf[len("goroutine "):n] {
+		if c < '0' || c > '9' {
+			break
+		}
+		id = id*10 + uint64(c-'0')
+	}
+	return id
+}
+
+// RunConcurrently runs f in n goroutines released together; it returns what each one panicked
+// with (nil for a normal return). Meant to be run under the race detector.
+func RunConcurrently(n int, f func()) []interface{} {
+	ids := make(chan uint64, n)
+	start := make(chan struct{})
+	done := make(chan int, n)
+	out := make([]interface{}, n)
+	for i := 0; i < n; i++ {
+		go func(i int) {
+			defer func() {
+				out[i] = recover()
+				done <- i
+			}()
+			ids <- goid()
+			<-start
+			f()
+		}(i)
+	}
+	m := map[uint64]*int{}
+	for i := 0; i < n; i++ {
+		m[<-ids] = new(int)
+	}
+	conc = m
+	close(start)
+	for i := 0; i < n; i++ {
+		<-done
+	}
+	conc = nil
+	return out
 }
